@@ -144,5 +144,8 @@ def run(R, tier):
                     f'{m["what"]} for {m["tree"][:200]} in {m["algebra"]}: implementation {m["impl"][:200]} differs from Model/Graph.v')
 
 
+REPLAY_BY_RERUN = True      # inputs derive from the seed recorded in the replay file: the recorded run is regenerated
+
+
 def replay(R, rec):
-    return False
+    return kv.replay_by_rerun(__import__('sys').modules[__name__], rec['property'], rec)
